@@ -19,7 +19,7 @@ RULE = ("case = (feature family, RKS|UKS, C1-symmetric jittered molecule, basis 
         "permutation, 1 Haar rotation at two grid levels; an operation is non-trivial when the AO representation is "
         "validated (U S U^T = S' to 1e-11), it moves the density matrix (|U dm U^T - dm| > 1e-3) and the ML share of "
         "the energy is >= 1e-3; distinct = (case, operation)")
-MIN_NONTRIVIAL = {"quick": 60, "thorough": 700}
+MIN_NONTRIVIAL = {"quick": 60, "thorough": 500}
 ASSUMPTIONS = ["pyscf's Becke/Lebedev grid generator maps onto itself under octahedral operations and translations "
                "(it is rebuilt for the moved molecule; trusted base)",
                "exact relations are decided at 1e-8 x scale (measured floor 4e-11); arbitrary rotations at a calibrated "
